@@ -251,6 +251,10 @@ func c14Exec(op string) string {
 				}
 			}
 		}
+		if note == "" && api == 0 && hashStr(op)%3 == 0 {
+			// x2j-wrapper.DocToJson(doc, cast) beside NewMapXml(doc, cast) then Json
+			note = wrapDocToJson([]byte(doc), o.Cast)
+		}
 		return "ok " + enc(m) + " | " + note
 	}
 	return "bad-op"
